@@ -433,7 +433,7 @@ def _make_data(dt, prob):
 
 def _comp_views(x, dt, prob):
     """list of (label, ndarray view of one scalar field with shape nvars)"""
-    comps = [(None, x)] if dt == 'mesh' else [(c, getattr(x, c)) for c in type(x).components]
+    comps = [(None, x)] if dt == 'mesh' else [(c, x.view(np.ndarray)[i]) for i, c in enumerate(type(x).components)]
     out = []
     nc_ = getattr(prob, 'ncomp', None)
     nv = prob.nvars if isinstance(prob.nvars, tuple) else (prob.nvars,)
@@ -602,7 +602,15 @@ def eval_fft(case):
     tol_unit = C * EPS * logn  # |data| <= 1 everywhere below
 
     def view(x, c):
-        return (x if c is None else getattr(x, c)).view(np.ndarray)
+        # a component is read from its slot of the array itself (what arithmetic, copies and np.asarray see), and the
+        # attribute of that name has to be that slot
+        if c is None:
+            return x.view(np.ndarray)
+        slot = x.view(np.ndarray)[type(x).components.index(c)]
+        named = np.asarray(getattr(x, c))
+        if named.shape != slot.shape or np.any(named != slot) or not np.shares_memory(named, slot):
+            res.fail('component_name_not_its_slot', {'component': c, 'slot_max': float(np.max(np.abs(slot))) if slot.size else 0.0, 'attribute_max': float(np.max(np.abs(named))) if named.size else 0.0}, op='result')
+        return slot
 
     # ---- does the class accept the data type at all? ------------------------------------------------------------------
     for op, src, dst in (('restrict', pf, pc), ('prolong', pc, pf)):
